@@ -29,7 +29,7 @@ RULE = ("one case = a generated module program: 1-3 source signals (Python float
         "shared/sliced signal or more than one cycle")
 PROBES = ["adjoint_source_without_outputs", "auto_created_output_signal", "built_by_append", "inner_network_extended_after_nesting", "matrix_signal_dyad_sensitivity", "same_object_for_two_inputs", "signal_used_twice", "output_into_slice", "nested_depth2", "unseeded_branch_skipped",
           "second_sensitivity_without_reset", "fan_out", "index_array_input", "python_float_signal", "keep_alloc_source",
-          "none_block", "order_differs_from_creation", "complex_program", "intermediate_seeded", "partial_seed_multi_output"]
+          "none_block", "order_differs_from_creation", "complex_program", "intermediate_seeded", "partial_seed_multi_output", "slice_of_slice_input", "mixed_slice_and_index_array_input"]
 FAULT_KINDS = ["clock_jump", "set_order_permutation"]
 COMPONENTS = {"real": ["pymoto.Network", "pymoto.Module (response/sensitivity/reset)", "pymoto.Signal", "SignalSlice"],
               "stub": ["harness modules with exact Jacobians (by design)", "simulated clock"]}
@@ -168,7 +168,8 @@ def gen(rng, idx, tier):
     sources = []
     for _ in range(nsrc):
         r = rng.random()
-        shape = "float" if (r < 0.15 and not cplx) else ([2, 2] if r < 0.3 else [int(rng.integers(1, 5))])
+        shape = "float" if (r < 0.15 and not cplx) else ([2, 2] if r < 0.3 else ([int(rng.integers(2, 4)), int(rng.integers(2, 5))] if r < 0.45
+                                                                                   else [int(rng.integers(1, 5))]))
         sources.append(dict(shape=shape, keep_alloc=bool(rng.random() < 0.2 and shape != "float")))
     nbuf = int(rng.integers(0, 3))
     matrix_flavour = bool(rng.random() < 0.3) and not cplx      # matrix-valued signals with DyadCarrier sensitivities
@@ -182,7 +183,8 @@ def gen(rng, idx, tier):
         mods.append(dict(type=t, seed=int(rng.integers(1 << 30)),
                          ins=[dict(ref=int(rng.integers(0, 64)),
                                    sl=(None if rng.random() < 0.6 else
-                                       dict(t=str(rng.choice(["basic", "idx", "tuple"])), a=float(rng.random()),
+                                       dict(t=str(rng.choice(["basic", "idx", "tuple", "sl_idx", "idx_sl", "ell_idx", "int_idx", "mask"])),
+                                            a=float(rng.random()),
                                             b=float(rng.random()), pseed=int(rng.integers(1 << 30)))))
                               for _ in range(nin)],
                          outs=[dict(size=int(rng.integers(1, 5)), to_buf=bool(rng.random() < 0.35),
@@ -237,6 +239,9 @@ class View:
         return len(self.idx)
 
 
+SLICE_KINDS = ("basic", "idx", "tuple", "sl_idx", "idx_sl", "int_idx", "mask")
+
+
 def _mk_slice(spec, shape):
     """ -> (index object, kind) valid for an array of `shape` (non-empty selection, no repeats) """
     n0 = shape[0]
@@ -245,8 +250,23 @@ def _mk_slice(spec, shape):
     if spec["t"] == "idx":
         perm = sub_rng(0x2, spec["pseed"]).permutation(n0)
         return np.array(perm[:max(1, hi - lo)]), "idx"
-    if spec["t"] == "tuple" and len(shape) == 2:
-        return (slice(lo, hi), int(spec["b"] * shape[1]) % shape[1]), "tuple"
+    if spec["t"] == "mask":
+        m = np.zeros(n0, dtype=bool)
+        m[sub_rng(0x2, spec["pseed"]).permutation(n0)[:max(1, hi - lo)]] = True
+        return m, "mask"
+    if len(shape) == 2:
+        n1 = shape[1]
+        cols = np.array(sub_rng(0x3, spec["pseed"]).permutation(n1)[:1 + int(spec["b"] * n1) % n1])
+        if spec["t"] == "tuple":
+            return (slice(lo, hi), int(spec["b"] * n1) % n1), "tuple"
+        if spec["t"] == "sl_idx":         # basic slice before an index array: numpy hands out a view of a temporary
+            return (slice(lo, hi), cols), "sl_idx"
+        if spec["t"] == "ell_idx":
+            return (Ellipsis, cols), "sl_idx"
+        if spec["t"] == "idx_sl":
+            return (np.array(sub_rng(0x2, spec["pseed"]).permutation(n0)[:max(1, hi - lo)]), slice(0, 1 + int(spec["a"] * n1) % n1)), "idx_sl"
+        if spec["t"] == "int_idx":
+            return (lo, cols), "int_idx"
     return slice(lo, hi), "basic"
 
 
@@ -291,14 +311,19 @@ def build(case):
         ins = []
         for inp in m["ins"]:
             v = views[inp["ref"] % len(views)]
-            if inp["sl"] is not None and v.shape != "float" and not v.kinds and v.size > 1:
+            if inp["sl"] is not None and v.shape != "float" and v.size > 1 and len(v.kinds) < 2 and \
+                    all(k in SLICE_KINDS for k in v.kinds):
                 shp = v.shape
                 ix, kind = _mk_slice(inp["sl"], shp)
                 ent = np.arange(v.size).reshape(shp)[ix]
                 sub = v.sig[ix]
-                v = View(sub, v.base, v.idx[np.asarray(ent).ravel()], np.shape(ent), kinds=(kind,))
-                if kind == "idx":
+                if v.kinds:
+                    probe("slice_of_slice_input")
+                v = View(sub, v.base, v.idx[np.asarray(ent).ravel()], np.shape(ent), kinds=v.kinds + (kind,))
+                if kind in ("idx", "mask"):
                     probe("index_array_input")
+                if kind in ("sl_idx", "idx_sl", "int_idx"):
+                    probe("mixed_slice_and_index_array_input")
             ins.append(v)
         t = m["type"]
         if t in ("diagmat", "addmat", "bilin"):
